@@ -142,6 +142,12 @@ def tomo_oracle(args):
     L, segs, solver = args["L"], args["segments"], args["solver"]
     J, g = float(rng.uniform(0.5, 1.2)), float(rng.uniform(0.3, 1.0))
     H, hd = MPO.ising(L, J, g), dense.ising(L, J, g)
+    if args.get("ham") == "pauli":  # site-dependent fields and couplings: not symmetric under reversing the chain
+        from drivers.C05 import pauli_terms
+
+        terms, hd = pauli_terms(L, rng)
+        H = MPO()
+        H.from_pauli_sum(terms=terms, length=L)
     dt = args.get("dt", 0.05)
     par = AnalogSimParams(observables=[], elapsed_time=segs[0], dt=dt, solver=solver, show_progress=False, threshold=1e-13,
                           max_bond_dim=16, get_state=True)
@@ -199,7 +205,9 @@ def search(ctx):
             dict(seed=3, L=2, segments=[0.1], solver="MCWF"), dict(seed=4, L=2, segments=[0.1, 0.15], solver="TJM"),
             dict(seed=5, L=2, segments=[0.3], solver="MCWF", dt=0.1),
             # the dense back-end with intermediate interventions (re-preparation of an evolved, complex state)
-            dict(seed=6, L=2, segments=[0.1, 0.1], solver="MCWF"), dict(seed=7, L=3, segments=[0.2, 0.1], solver="MCWF", dt=0.1)]
+            dict(seed=6, L=2, segments=[0.1, 0.1], solver="MCWF"), dict(seed=7, L=3, segments=[0.2, 0.1], solver="MCWF", dt=0.1),
+            dict(seed=8, L=3, segments=[0.1], solver="MCWF", dt=0.1, ham="pauli"), dict(seed=9, L=2, segments=[0.1, 0.2], solver="MCWF", dt=0.1, ham="pauli"),
+            dict(seed=10, L=3, segments=[0.1, 0.1], solver="TJM", ham="pauli")]
     if not ctx.quick:
         plan += [dict(seed=int(ctx.rng.integers(0, 2**31)), L=int(ctx.rng.integers(2, 4)), segments=[0.1, 0.1] if k % 3 == 0 else [round(int(ctx.rng.integers(1, 7)) * 0.05, 2)] if k % 3 == 1
                       else [float(ctx.rng.uniform(0.05, 0.3))],
